@@ -129,7 +129,7 @@ Record facts (i : place_in) (hc : bool) (c0 : Z) (r : placed) (ws : wheres)
   f_dr : pl_dr r = side_entries i ws true nm_d sl_d (if hc then Some (mk_ce 0 0 (pl_celen r)) else None);
   f_ce : pl_ce r = side_entries i ws false nm_c sl_c None;
   f_created : created i ws;
-  f_noce : hc = false -> noce ws /\ nm_c = [] /\ pl_celen r = 0;
+  f_noce : hc = false -> noce ws /\ nm_c = [] /\ sl_c = [] /\ pl_celen r = 0 /\ sl_lens sl_d = sl_uncut i;
   f_len : pl_len r = cur_sl i c0 ws nm_d + sl_lens sl_d + wl (w_tf ws) true (len_tf TF_FLAGS)
             + wl (w_cl ws) true len_link + wl (w_re ws) true len_re + wl (w_pl ws) true len_link
             + wl (w_er ws) true (er_len (p_v i));
@@ -193,28 +193,38 @@ Proof.
   destruct (put_if_spec _ _ _ _ _ _ E10 L7) as (A10 & B10 & C10 & D10 & F10 & G10 & I10 & J10).
   set (ws := mk_wh wsp wrr wpx wtf wcl wre wpl wer).
   assert (Hcur4 : fst s4 = cur_sl i c0 ws nm_d) by (unfold cur_sl, ws; cbn [w_sp w_rr w_px]; lia).
+  assert (Wtf : hc = false -> fst s5 + len_tf TF_FLAGS <= ALLOWED_DR_SIZE).
+  { intros ->. pose proof (D6 eq_refl) as Hn. destruct wtf as [[]|]; try congruence; [|discriminate A6].
+    specialize (J6 eq_refl). change (wl (Some true) true (len_tf TF_FLAGS)) with (len_tf TF_FLAGS) in B6. lia. }
   assert (S5 : fst s5 = fst s4 + sl_lens sl_d /\ snd s5 = snd s4 + (if hc then sl_lens sl_c else 0) /\
                (fst s4 <= ALLOWED_DR_SIZE -> fst s5 <= ALLOWED_DR_SIZE) /\
-               if nonempty (target_of i)
-               then exists cel4 s5', sl_stage hc (target_of i) (cur_sl i c0 ws nm_d, cel4) = Some ((sl_d, sl_c), s5')
-                                     /\ (hc = false -> cel4 = 0)
-               else sl_d = [] /\ sl_c = []).
-  { destruct (nonempty (target_of i)).
-    - destruct (sl_stage_spec _ _ _ _ _ _ E5 ltac:(lia)) as (_ & X1 & X2 & _ & _ & X3 & _).
-      repeat split; try assumption. exists (snd s4), s5. rewrite <- Hcur4, <- surjective_pairing.
-      split; [exact E5|]. intros ->.
-      rewrite (wl_false_0 _ _ (D1 eq_refl)) in C1. rewrite (wl_false_0 _ _ (D2 eq_refl)) in C2.
-      rewrite (wl_false_0 _ _ (D4 eq_refl)) in C4.
-      rewrite (D3 eq_refl) in C3. unfold nm_lens in C3. cbn [map sumz] in C3. lia.
-    - apply some_inv in E5. inversion E5; subst. cbn [sl_lens map sumz]. destruct hc; repeat split; lia. }
-  destruct S5 as (B5 & C5 & F5 & SL).
+               (if nonempty (target_of i)
+                then exists cel4 s5', sl_stage hc (target_of i) (cur_sl i c0 ws nm_d, cel4) = Some ((sl_d, sl_c), s5')
+                                      /\ (hc = false -> cel4 = 0)
+                else sl_d = [] /\ sl_c = []) /\
+               (hc = false -> sl_c = [] /\ sl_lens sl_d = sl_uncut i)).
+  { unfold sl_uncut. destruct (nonempty (target_of i)) eqn:Et.
+    - destruct (sl_stage_spec _ _ _ _ _ _ E5 ltac:(lia)) as (_ & X1 & X2 & XM & _ & X3 & _ & X5).
+      split; [exact X1|]. split; [exact X2|]. split; [exact X3|]. split.
+      + exists (snd s4), s5. rewrite <- Hcur4, <- surjective_pairing.
+        split; [exact E5|]. intros ->.
+        rewrite (wl_false_0 _ _ (D1 eq_refl)) in C1. rewrite (wl_false_0 _ _ (D2 eq_refl)) in C2.
+        rewrite (wl_false_0 _ _ (D4 eq_refl)) in C4.
+        rewrite (D3 eq_refl) in C3. unfold nm_lens in C3. cbn [map sumz] in C3. lia.
+      + intros Hc. cbn [opt_len]. apply X5; [exact Hc|destruct (target_of i); [discriminate Et|discriminate]|].
+        apply Forall_app in XM. pose proof (sl_lens_nonneg _ (proj1 XM)). specialize (Wtf Hc).
+        unfold ALLOWED_DR_SIZE in *. change (len_tf TF_FLAGS) with 26 in Wtf. lia.
+    - apply some_inv in E5. inversion E5; subst. unfold sl_lens. cbn [map sumz opt_len].
+      destruct hc; repeat split; lia. }
+  destruct S5 as (B5 & C5 & F5 & SL & SU).
   exists ws, nm_d, nm_c, sl_d, sl_c. subst ws.
   constructor; cbn [pl_dr pl_ce pl_len pl_celen w_sp w_rr w_px w_tf w_cl w_re w_pl w_er]; try reflexivity.
   - unfold created. cbn. repeat split; assumption.
   - intros ->. unfold noce. cbn [w_sp w_rr w_px w_tf w_cl w_re w_pl w_er].
     pose proof (D1 eq_refl). pose proof (D2 eq_refl). pose proof (D4 eq_refl). pose proof (D6 eq_refl).
     pose proof (D7 eq_refl). pose proof (D8 eq_refl). pose proof (D9 eq_refl). pose proof (D10 eq_refl).
-    split; [repeat split; assumption|]. split; [exact (D3 eq_refl)|].
+    split; [repeat split; assumption|]. split; [exact (D3 eq_refl)|]. destruct (SU eq_refl) as [SU1 SU2].
+    split; [exact SU1|]. split; [|exact SU2].
     rewrite (D3 eq_refl) in C3. unfold nm_lens in C3. cbn [map sumz] in C3.
     rewrite wl_false_0 in C1, C2, C4, C6, C7, C8, C9, C10 by assumption. lia.
   - lia.
@@ -329,13 +339,15 @@ Lemma sl_facts i hc c0 r ws nm_d nm_c sl_d sl_c : facts i hc c0 r ws nm_d nm_c s
   Forall sl_made (sl_d ++ sl_c) /\ Forall (fun s => sl_current_length s <= 255) (sl_d ++ sl_c) /\
   (nonempty (target_of i) = true ->
    map sl_view (sl_d ++ sl_c) =
-   LongNames.sl_records (sl_room (cur_sl i c0 ws nm_d)) 250 (LongNames.sl_components (target_of i))).
+   LongNames.sl_records (sl_room (cur_sl i c0 ws nm_d)) 250 (LongNames.sl_components (target_of i))) /\
+  sl_uncut i <= sl_lens (sl_d ++ sl_c).
 Proof.
   intros F. pose proof (f_sl _ _ _ _ _ _ _ _ _ F) as S. pose proof (f_cur _ _ _ _ _ _ _ _ _ F) as C.
-  destruct (nonempty (target_of i)).
-  - destruct S as (cel4 & s5 & E & _). destruct (sl_stage_spec _ _ _ _ _ _ E C) as (_ & _ & _ & M & L & _).
-    split; [exact M|]. split; [exact L|]. intros _. apply (sl_stage_view _ _ _ _ _ _ E C).
-  - destruct S as [-> ->]. repeat split; try constructor. discriminate.
+  unfold sl_uncut. destruct (nonempty (target_of i)).
+  - destruct S as (cel4 & s5 & E & _). destruct (sl_stage_spec _ _ _ _ _ _ E C) as (G & _ & _ & M & L & _).
+    split; [exact M|]. split; [exact L|]. split; [intros _; apply (sl_stage_view _ _ _ _ _ _ E C)|].
+    rewrite G. cbn [opt_len]. apply sl_total_ge.
+  - destruct S as [-> ->]. split; [constructor|]. split; [constructor|]. split; [discriminate|]. cbn. lia.
 Qed.
 
 (* ---- Theorems 1 and 2 ---- *)
@@ -348,7 +360,7 @@ Theorem place_records i r : place i = Some r -> input_ok i r ->
 Proof.
   intros H (H0 & Hm & Hs & Hc).
   destruct (place_pass i r H H0) as (hc & ws & nm_d & nm_c & sl_d & sl_c & F & _ & _ & Hv & Hd).
-  destruct (sl_facts _ _ _ _ _ _ _ _ _ F) as (M & L & _).
+  destruct (sl_facts _ _ _ _ _ _ _ _ _ F) as (M & L & _ & _).
   apply Forall_app in M. apply Forall_app in L. destruct M as [M1 M2]. destruct L as [L1 L2].
   destruct (f_nm _ _ _ _ _ _ _ _ _ F) as (_ & N & _). apply Forall_app in N. destruct N as [N1 N2].
   assert (R1 : Forall (recok (p_v i)) (entries_list (pl_dr r))).
